@@ -1,6 +1,7 @@
 package checks
 
 import (
+	"bytes"
 	"encoding/json"
 	"fmt"
 	"sort"
@@ -485,6 +486,14 @@ func c13BigCases(depth, nm int) []c13BigCase {
 }
 
 func replayC13(raw json.RawMessage) (string, error) {
+	var rc c13RealCase
+	if json.Unmarshal(raw, &rc) == nil && (rc.RealBase != 0 || bytes.Contains(raw, []byte("real_base"))) {
+		sig, what := c13RealRun(rc)
+		if sig == "" {
+			return "routing to the library's RAM/ROM objects agrees with the owner map", nil
+		}
+		return what, fmt.Errorf("%s", sig)
+	}
 	var ac c13AltCase
 	if json.Unmarshal(raw, &ac) == nil && ac.AltSegs > 0 {
 		sig, what := c13AltReplayCase(ac)
@@ -630,6 +639,15 @@ func runC13(r *report.Run) {
 	})
 	states += int64(len(big))
 	transitions += nbig
+	// the library's own RAM/ROM types behind the bus
+	for _, base := range []uint32{0x000000, 0x000010, 0x7DFFA0, 0x7DFFC0, 0x7DFFE0, 0x7E0000, 0xFFFF80} { // incl. each object straddling a bank edge
+		rc := c13RealCase{RealBase: base}
+		states++
+		transitions += 3
+		if sig, what := c13RealRun(rc); sig != "" {
+			r.Violation(sig, what, rc)
+		}
+	}
 	// the second bus implementation (cpualt.Bus): routing clause only
 	altSegs := 3
 	if thorough {
@@ -645,7 +663,7 @@ func runC13(r *report.Run) {
 	r.Set("traces_validated_against_impl", transitions)
 	r.Set("evaluations", evals)
 	r.Set("distinct_nontrivial", states)
-	r.Set("rule", "BFS to fixpoint over routing states (owner of each 16-byte window segment) for each window position; every transition is a real Attach on a fresh real Bus reached by replaying the shortest path; in every state every byte address of window+guards is read and written, EaRead24_wrap is called from every window address (and across the bank wrap in the large-range scenarios) and EaDump is called for every start<=end; evaluations counts those per-state calls. The second bus implementation, cpualt.Bus, has no Attach result, alignment rule or EaDump and treats unattached cells as open bus, so only the routing clause applies to it: BFS to a fixpoint over (reader owner, writer owner) per window cell through real AttachReader/AttachWriter calls, every address probed through Read8/16/24, Write8/16/24, EaRead, EaWrite with logging closures (each byte must reach the most recently attached closure of its own cell with the full address)")
+	r.Set("rule", "BFS to fixpoint over routing states (owner of each 16-byte window segment) for each window position; every transition is a real Attach on a fresh real Bus reached by replaying the shortest path; in every state every byte address of window+guards is read and written, EaRead24_wrap is called from every window address (and across the bank wrap in the large-range scenarios) and EaDump is called for every start<=end; evaluations counts those per-state calls. The library's own memory.RAM and memory.ROM objects (which subtract their offset from the full address) are attached side by side and overlapping at seven bases (each object once across a bank edge) and every address is read, written and dumped against a plain owner map. The second bus implementation, cpualt.Bus, has no Attach result, alignment rule or EaDump and treats unattached cells as open bus, so only the routing clause applies to it: BFS to a fixpoint over (reader owner, writer owner) per window cell through real AttachReader/AttachWriter calls, every address probed through Read8/16/24, Write8/16/24, EaRead, EaWrite with logging closures (each byte must reach the most recently attached closure of its own cell with the full address)")
 	r.Set("bounds", map[string]interface{}{"window_segments": segs, "memories": nm, "window_bases": bases, "fixpoint": true})
 	r.Set("exhaustive", true)
 	r.Sample(c13Case{Base: 0x10, Segs: segs, Mems: nm, Path: []c13Attach{{1, 0x10, 0x4F}, {2, 0x20, 0x2F}}, Probe: "dump 000018 00002f"})
